@@ -329,8 +329,42 @@ func zzCheckRoute(tag, pattern, path string, ps zzParamsLike) {
 	}
 	if !ignored {
 		zzv.Assert(s == path, tag+":path-reconstructs")
+		return
 	}
+	// '-' parameters report no value: the path must still have the shape of the pattern, i.e. there
+	// must be texts for the ignored parameters, each satisfying its rule, that make the substitution
+	// equal to the path. Decided with an anchored expression built here from the pattern.
+	expr := "^"
+	for _, t := range toks {
+		switch {
+		case !t.param:
+			expr += regexp.QuoteMeta(t.lit)
+		case !t.ignore:
+			v, _ := ps.Get(t.name)
+			if zzHasSymbolic(v) {
+				return // a symbolic captured value cannot be spliced into an expression; covered by the other tables
+			}
+			expr += regexp.QuoteMeta(v)
+		case t.rule == "":
+			expr += "(?s:.*)"
+		case t.rule == "digit":
+			expr += "[0-9]+"
+		case t.rule == "word":
+			expr += "[a-zA-Z0-9]+"
+		case t.rule == "any":
+			expr += "(?s:.+)"
+		case t.rule == "u":
+			return
+		default:
+			expr += "(?:" + t.rule + ")"
+		}
+	}
+	zzv.Assert(regexp.MustCompile(expr+"$").MatchString(path), tag+":path-does-not-have-the-shape-of-the-pattern")
 }
+
+// zzHasSymbolic: natively always false; under the executor true for strings with symbolic bytes
+// (the executor evaluates s == s symbolically, so this is decided by comparing with a copy).
+func zzHasSymbolic(s string) bool { return zzv.IsSymbolic(s) }
 
 // ---- table model shared by the history harnesses ----
 
